@@ -1562,6 +1562,63 @@ def gen_parse():
 GENERATORS["Parse.lean"] = gen_parse
 
 
+def gen_atom_eval():
+    """matcher/src/pattern.rs: Atom::score and Atom::indices — which matcher entry point each kind calls (three dispatch tables), the flag
+    overwrite in front of them, and the treatment of negated atoms (C15)"""
+    msrc = strip_comments(read("matcher/src/pattern.rs"))
+    kinds = enum_variants(msrc, "AtomKind")
+    algos = ["fuzzy", "substring", "prefix", "postfix", "exact"]
+    bodies = fn_bodies(msrc)
+    score = next((b for b in bodies.get("score", []) if "pattern_score" in b), None)
+    indices = next((b for b in bodies.get("indices", []) if "pattern_score" in b), None)
+    if score is None or indices is None:
+        raise TranslateError("Atom::score / Atom::indices not found")
+    flags = r"\{\s*matcher\.config\.ignore_case = self\.ignore_case;\s*matcher\.config\.normalize = self\.normalize;\s*"
+
+    def table(text, suffix, extra):
+        arms = re.findall(r"AtomKind::(\w+) => \{?\s*matcher\.(\w+)_%s\(haystack, self\.needle\.slice\(\.\.\)%s\)\s*\}?,?" % (suffix, extra), text)
+        rest = re.sub(r"AtomKind::(\w+) => \{?\s*matcher\.(\w+)_%s\(haystack, self\.needle\.slice\(\.\.\)%s\)\s*\}?,?" % (suffix, extra), "", text)
+        if rest.strip() or sorted(k for k, _ in arms) != sorted(kinds) or any(a not in algos for _, a in arms):
+            raise TranslateError(f"Atom::score/indices: dispatch table {text.strip()[:80]!r}")
+        d = dict(arms)
+        return [algos.index(d[k]) for k in kinds]
+
+    m = re.fullmatch(flags + r"let pattern_score = match self\.kind \{(.*?)\};\s*if self\.negative \{\s*if pattern_score\.is_some\(\) \{\s*return None;\s*\}\s*Some\(0\)\s*\} else \{\s*pattern_score\s*\}\s*\}",
+                     score.strip(), re.S)
+    if not m:
+        raise TranslateError("Atom::score has an unexpected shape")
+    t_score = table(m.group(1), "match", "")
+    m = re.fullmatch(flags + r"if self\.negative \{\s*let pattern_score = match self\.kind \{(.*?)\};\s*pattern_score\.is_none\(\)\.then_some\(0\)\s*\} else \{\s*match self\.kind \{(.*)\}\s*\}\s*\}",
+                     indices.strip(), re.S)
+    if not m:
+        raise TranslateError("Atom::indices has an unexpected shape")
+    t_neg = table(m.group(1), "match", "")
+    t_pos = table(m.group(2), "indices", ", indices")
+
+    def lean_table(name, doc, t):
+        return [f"/-- {doc} (kind id -> entry point: " + ", ".join(f"{i} = {a}" for i, a in enumerate(algos)) + ") -/",
+                f"def {name} (kind : Nat) : Nat :=", "  match kind with"] + [f"  | {i} => {a}" for i, a in enumerate(t[:-1])] + [f"  | _ => {t[-1]}", ""]
+    out = ["/- GENERATED by translator/translate.py from matcher/src/pattern.rs (Atom::score, Atom::indices) — do not edit -/",
+           "namespace NucleoVerif.Gen.AtomEval", "",
+           "/-- `AtomKind` variants in declaration order: " + ", ".join(f"{i} = {k}" for i, k in enumerate(kinds)) + " -/",
+           f"def atomKinds : Nat := {len(kinds)}", ""]
+    out += lean_table("score_entry", "`Atom::score`: `match self.kind { .. => matcher.<entry>_match(..) }`", t_score)
+    out += lean_table("indices_neg_entry", "`Atom::indices`, negated atom: `matcher.<entry>_match(..)`", t_neg)
+    out += lean_table("indices_pos_entry", "`Atom::indices`, positive atom: `matcher.<entry>_indices(.., indices)`", t_pos)
+    out += ["/-- both functions start with `matcher.config.ignore_case = self.ignore_case; matcher.config.normalize = self.normalize;` -/",
+            "def flags_overwritten_first : Bool := true", "",
+            "/-- `Atom::score` after the call: `if self.negative { if pattern_score.is_some() { return None; } Some(0) } else { pattern_score }` -/",
+            "def score_result (negative : Bool) (inner : Option Nat) : Option Nat :=",
+            "  if negative then (if inner.isSome then none else some 0) else inner", "",
+            "/-- `Atom::indices`, negated atom: `pattern_score.is_none().then_some(0)` (nothing is pushed to `indices`) -/",
+            "def indices_neg_result (inner : Option Nat) : Option Nat := if inner.isNone then some 0 else none", "",
+            "end NucleoVerif.Gen.AtomEval"]
+    return "\n".join(out) + "\n"
+
+
+GENERATORS["AtomEval.lean"] = gen_atom_eval
+
+
 def rust_struct_fields(src, name):
     m = re.search(r"struct\s+%s\s*\{(.*?)\}" % name, src, re.S)
     if m:
